@@ -28,7 +28,7 @@ UNKNOWN = ["foo", "foobar", "barfoo", "my_foo_2", "a+b", "c.d", "x(1)", "x1", "z
 
 
 def cases(tier, seed):
-    n = 32 if tier == "quick" else 800
+    n = 32 if tier == "quick" else 4000
     rng = random.Random(seed + 1800)
     cs = []
     for i in range(n):
